@@ -32,12 +32,30 @@ var prop = flag.String("prop", "C21", "property: C21|C36")
 
 const groupID = 1
 
+// the smallest segment size wal.Open accepts: `fill` pads the active segment so that the next
+// record does not fit and AppendRecords itself has to rotate (ensureCapacity inside its loop)
+const (
+	walSegmentSize = 64 << 10
+	fillLeaves     = 4 // bytes left free by `fill`: less than any record (9 bytes of framing)
+)
+
+// tmpBase prefers a memory-backed directory: the harness observes what the *kernel* holds (a
+// process crash, not a power loss), so fsync latency only costs time.
+func tmpBase() string {
+	if os.Getenv("VERIF_TMP_ON_DISK") == "" {
+		if st, err := os.Stat("/dev/shm"); err == nil && st.IsDir() {
+			return "/dev/shm"
+		}
+	}
+	return ""
+}
+
 // ---------------------------------------------------------------- crash image
 
 // copyDir copies every regular file of src into a fresh directory: the kernel's view of the
 // files while the writing process is still alive.
 func copyDir(src string) (string, error) {
-	dst, err := os.MkdirTemp("", "raftwal-img-")
+	dst, err := os.MkdirTemp(tmpBase(), "raftwal-img-")
 	if err != nil {
 		return "", err
 	}
@@ -90,7 +108,7 @@ func (s *store) open(dir string) (string, error) {
 	if err := wal.VerifyDir(dir, nil); err != nil {
 		return "err:wal-verify", err
 	}
-	w, err := wal.Open(wal.Config{Dir: dir})
+	w, err := wal.Open(wal.Config{Dir: dir, SegmentSize: walSegmentSize})
 	if err != nil {
 		return "err:wal-open", err
 	}
@@ -204,7 +222,7 @@ func (e *c21Engine) Rule() string {
 
 func (e *c21Engine) Exec(ops []string) []string {
 	out := make([]string, len(ops))
-	root, err := os.MkdirTemp("", "raftwal-")
+	root, err := os.MkdirTemp(tmpBase(), "raftwal-")
 	if err != nil {
 		panic(err)
 	}
@@ -238,6 +256,14 @@ func (e *c21Engine) Exec(ops []string) []string {
 			out[i] = guard(func() error { return s.ws.MaybeCompact(u(t[1]), u(t[2])) })
 		case "other":
 			out[i] = guard(func() error { _, err := s.wal.Append([]byte("lsm-batch")); return err })
+		case "fill":
+			// one foreign record sized to leave fillLeaves bytes in the active segment
+			room := int64(walSegmentSize) - s.wal.ActiveSize() - 9 - fillLeaves
+			if room < 1 {
+				out[i] = "full"
+				break
+			}
+			out[i] = guard(func() error { _, err := s.wal.Append(make([]byte, room)); return err })
 		case "sync":
 			out[i] = guard(func() error { return s.wal.Sync() })
 		case "rotate":
@@ -343,8 +369,23 @@ func (e *c21Engine) Gen(r *hlib.Rand, tier string) []string {
 			if retain > 0 && applied > retain && applied-retain > trunc && applied-retain <= last {
 				trunc = applied - retain
 			}
-		case x < 70:
+		case x < 66:
 			ops = append(ops, "other")
+		case x < 70:
+			// the next record will not fit: AppendRecords rotates inside its own loop
+			ops = append(ops, "fill")
+			if r.Chance(60) {
+				ops = append(ops, hlib.Pick(r, []string{
+					fmt.Sprintf("hs %d %d %d", term, vote, commit),
+					fmt.Sprintf("app %d %s", last+1, genItems(r, term, 1)),
+				}))
+				if strings.HasPrefix(ops[len(ops)-1], "app") {
+					last++
+				}
+				if r.Chance(50) {
+					ops = append(ops, "crash", "state")
+				}
+			}
 		case x < 78:
 			ops = append(ops, "sync")
 		case x < 83:
